@@ -68,7 +68,11 @@ def gen_geometry(rng, D, cls):
             den = rng.choice([10.0, 10.0, 100.0, 1.0])
             a_ = 1 + rng.randrange(0, 9) / rng.choice([2, 4, 8])
             b_ = 1 + rng.randrange(0, 9) / rng.choice([2, 4, 8])
-            lb.append(_r((s_ - a_ * t_) / den, 12)); ub.append(_r((s_ + b_ * t_) / den, 12))
+            if rng.random() < 0.35:
+                # hard bound a hair *inside* the mesh node (within ~1e-5 relative): a poll step lands just outside it
+                a_ -= 10 ** rng.uniform(-7, -4.9)
+                b_ -= 10 ** rng.uniform(-7, -4.9)
+            lb.append(_r((s_ - a_ * t_) / den, 15)); ub.append(_r((s_ + b_ * t_) / den, 15))
             plb.append(_r((s_ - t_) / den, 12)); pub.append(_r((s_ + t_) / den, 12)); islog.append(False)
         elif c == "tight":
             m = _r(rng.uniform(-10, 10), 3)
@@ -355,6 +359,7 @@ def gen_options(rng, D, prof, noise_mode):
     # options that gate rarely taken branches of the GP refit code
     maybe("gp_warnings", 0.12, lambda: True)
     maybe("double_refit", 0.08, lambda: True)
+    maybe("noise_nudge", 0.08, lambda: _choice(rng, [{"__np__": [0.5, 0.25]}, {"__np__": [1.0]}, {"__np__": [2, 0]}, None]))
     maybe("nonlinear_scaling", 0.1, lambda: False)
     maybe("tol_fun", 0.1, lambda: _choice(rng, [1e-2, 1e-4, 1e-6]))
     maybe("tol_stall_iters", 0.15, lambda: rng.randrange(1, 6))
@@ -414,6 +419,11 @@ def make_scenario(seed, profile=None, index=0):
     g = gen_geometry(rng, D, gcls)
     x0kind = _choice(rng, prof["x0"], prof.get("x0_w"))
     x0, x0cls = gen_x0(rng, g, D, x0kind)
+    if gcls == "aligned" and x0 is not None and rng.random() < 0.5:
+        # start on a coarse lattice point of the internal grid (plausible bounds, centre, halves): the first polls
+        # (mesh 1, 1/2, ...) then land exactly on - or a hair beyond - mesh-aligned hard bounds
+        x0 = [g["plb"][i] + (g["pub"][i] - g["plb"][i]) * rng.choice([0.0, 0.25, 0.5, 0.75, 1.0]) for i in range(D)]
+        x0cls = "on_bound"
     where = _choice(rng, prof["where"], prof.get("where_w"))
     fam = _choice(rng, prof["fam"], prof.get("fam_w"))
     tgt = gen_target(rng, g, D, fam, where, sseed)
@@ -471,6 +481,15 @@ def make_scenario(seed, profile=None, index=0):
         cons = gen_cons(rng, g, D, x0, ckind)
         cons["ret"] = "bool" if rng.random() < 0.4 else "float"
         cons["gen_kind"] = ckind
+        if rng.random() < prof.get("gate_p", 0.0):
+            # search-step outcome script: A = candidates judged by the region, R = every candidate batch rejected
+            if rng.random() < 0.5:
+                # a few evaluating searches, then empty candidate sets for the rest of the run
+                cons["gate"] = dict(script="A" * rng.randrange(1, 5), tail="R")
+            else:
+                n_a = rng.randrange(0, 6)
+                body = "".join(_choice(rng, ["A", "R"], _choice(rng, [(1, 1), (1, 4), (4, 1)])) for _ in range(rng.randrange(0, 12)))
+                cons["gate"] = dict(script="A" * n_a + body, tail=_choice(rng, ["R", "R", "A"]))
     scn["cons"] = cons
     if cons is not None and x0 is not None and g["lb"] is not None:
         mode = None
